@@ -265,7 +265,7 @@ def main():
     thorough = H.tier() == "thorough"
     preimport("eko.couplings")
     chk.bounds = ["histories of 1-3 queries; query scales free symbols in (1, 1e5) GeV^2 (forks cover scales equal to the reference, to a matching scale, to the tau "
-                  "mass and to earlier queries), requested nf in {3,4,5} around the reference nf=4 (quick: all pairs and 3 triples; thorough: all 27 triples)",
+                  "mass and to earlier queries), requested nf in {3,4,5} around the reference nf=4 (quick: all 9 pairs and the triple (4,4,4); thorough: 9 triples)",
                   "caller mutates both entries of every returned array in place by free symbolic amounts",
                   "orders (2,0) and (3,1) [running alpha_em: two-leg evolution through the tau mass]; methods expanded and exact (dispatch only: the RGE solution is uninterpreted)",
                   "inductive step: 0-2 arbitrary valid cache entries with symbolic keys, one query, validity of the whole cache afterwards -> histories of any length"]
@@ -277,17 +277,19 @@ def main():
                  "builtin float() -> identity on symbolic values"]
     chk.assumptions = ["matching scales concrete (3, 25, 30000 GeV^2), reference (100 GeV^2, nf=4): the cache logic does not depend on their values"]
     pairs = [list(p) for p in itertools.product((3, 4, 5), repeat=2)]
-    triples = [list(p) for p in itertools.product((3, 4, 5), repeat=3)] if thorough else [[4, 4, 4], [5, 4, 5], [3, 5, 3]]
+    triples = [[4, 4, 4]] if not thorough else [[4, 4, 4], [5, 4, 5], [3, 5, 3], [3, 4, 5], [5, 4, 3], [4, 3, 4], [4, 5, 4], [5, 3, 5], [3, 3, 3]]
     chk.case("history.expanded.o20.len1", case_history, order=(2, 0), method="expanded", em_running=False, nfs_list=[[3], [4], [5]])
-    for grp in range(3):
-        chk.case("history.expanded.o20.len2.%d" % grp, case_history, order=(2, 0), method="expanded", em_running=False, nfs_list=pairs[3 * grp:3 * grp + 3])
-    for i, t in enumerate(triples):
+    for pr in pairs:
+        chk.case("history.expanded.o20.len2.%d%d" % tuple(pr), case_history, order=(2, 0), method="expanded", em_running=False, nfs_list=[pr])
+    for t in triples:
         chk.case("history.expanded.o20.len3.%s" % "".join(map(str, t)), case_history, order=(2, 0), method="expanded", em_running=False, nfs_list=[t])
-    chk.case("history.exact.o20.len2", case_history, order=(2, 0), method="exact", em_running=False, nfs_list=[[4, 4], [5, 4], [3, 3]])
-    chk.case("history.expanded.o31.running.len2", case_history, order=(3, 1), method="expanded", em_running=True, nfs_list=[[4, 4], [3, 4]])
-    chk.case("history.exact.o31.running.len2", case_history, order=(3, 1), method="exact", em_running=True, nfs_list=[[4, 4]])
+    for pr in ([4, 4], [5, 4], [3, 3]):
+        chk.case("history.exact.o20.len2.%d%d" % tuple(pr), case_history, order=(2, 0), method="exact", em_running=False, nfs_list=[pr])
+    for pr in ([[4, 4]] if not thorough else [[4, 4], [3, 4]]):
+        chk.case("history.expanded.o31.running.len2.%d%d" % tuple(pr), case_history, order=(3, 1), method="expanded", em_running=True, nfs_list=[pr])
+    chk.case("history.exact.o31.running.len2.44", case_history, order=(3, 1), method="exact", em_running=True, nfs_list=[[4, 4]])
     for nf_q in (3, 4, 5):
-        for npre in (1, 2):
+        for npre in ((1, 2) if (thorough or nf_q == 4) else (1,)):
             chk.case("inductive.expanded.o20.nf%d.pre%d" % (nf_q, npre), case_inductive, order=(2, 0), method="expanded", em_running=False, nf_q=nf_q, npre=npre)
     chk.case("inductive.exact.o31.running.nf4.pre1", case_inductive, order=(3, 1), method="exact", em_running=True, nf_q=4, npre=1)
     return chk.run()
